@@ -163,9 +163,10 @@ func c06Run(w *kernel.Worker, j *c06Job, rep *kernel.Report) (*Fail, error) {
 		}
 	}
 	n := len(j.Table)
+	sparseCols := false
 	call := func(batches [][]map[string]interface{}, streams [][][]map[string]interface{}, eofWith bool) (*pipeRes, error) {
 		var r pipeRes
-		args := map[string]interface{}{"query": query, "cols": cols, "batches": batches, "eofWithData": eofWith}
+		args := map[string]interface{}{"query": query, "cols": cols, "batches": batches, "eofWithData": eofWith, "sparseBatchCols": sparseCols}
 		if streams != nil {
 			args["streams"] = streams
 		}
@@ -277,8 +278,19 @@ func c06Run(w *kernel.Worker, j *c06Job, rep *kernel.Report) (*Fail, error) {
 	}
 	if j.NStream <= 1 {
 		for _, comp := range compositions(n) {
-			for variant := 0; variant < 3; variant++ {
-				// variant 0: plain, EOF after data; 1: EOF delivered with the last batch; 2: an empty batch after the first
+			for variant := 0; variant < 4; variant++ {
+				// variant 0: plain, EOF after data; 1: EOF delivered with the last batch; 2: an empty batch after the first;
+				// 3: a column that no row of a batch carries is left out of that batch (a segment without the column)
+				sparseCols = variant == 3
+				if variant == 3 {
+					// only where the aggregation reads the source batches itself: its group-by/measure reads are written
+					// for columns that a batch does not have (other commands never meet such a batch from the searcher)
+					first := j.Chain[0]
+					if len(comp) == 1 || !(strings.HasPrefix(first, "stats ") || strings.HasPrefix(first, "top ") || strings.HasPrefix(first, "rare ")) {
+						sparseCols = false
+						continue
+					}
+				}
 				var batches [][]map[string]interface{}
 				pos := 0
 				for bi, sz := range comp {
@@ -292,12 +304,13 @@ func c06Run(w *kernel.Worker, j *c06Job, rep *kernel.Report) (*Fail, error) {
 					continue // the reference itself
 				}
 				got, err := call(batches, nil, variant == 1)
+				sparseCols = false
 				if err != nil {
 					return die(err)
 				}
 				g := got.canon(ordered)
 				if g != want {
-					vn := []string{"batches", "eof-with-data", "empty-batch"}[variant]
+					vn := []string{"batches", "eof-with-data", "empty-batch", "column-left-out-of-batches-without-it"}[variant]
 					fs.Add("C06/batching/"+cls, fmt.Sprintf("query=%q table=%s\n  one batch:   %s\n  batches %v (%s): %s", query, jstr(j.Table), want, comp, vn, g))
 				} else if len(comp) >= 2 && stateful {
 					rep.Nontrivial(query + "|" + jstr(j.Table) + "|" + fmt.Sprint(comp, variant))
